@@ -5,6 +5,7 @@ import Huginn.Lemmas.H2Frames
 Helper lemmas for Props/C17: byte-level facts, the two list renderers, settings payload chunking,
 frame predicates of model and specification.
 -/
+set_option linter.unusedSimpArgs false
 namespace Huginn.Lemmas.Akamai
 open Huginn.H2 Huginn.Spec.H2 Huginn.Spec.Akamai
 
